@@ -24,6 +24,7 @@ RULE = (
 )
 QUICK = {"examples": 960, "shards": 16, "budget_s": 400}
 THOROUGH = {"examples": 9600, "shards": 16, "budget_s": 3000}
+FUZZ = {"seconds": 90, "jobs": 8, "instrument": ["skgenome.tabio", "skgenome.gary", "skgenome.chromsort", "skgenome.rangelabel"]}
 ASSUMPTIONS = [
     "chromosome names and labels start with a letter or are plain integers without leading zeros, and are not pandas NA sentinels (NA, nan, null, None): pandas would re-type such a column on read",
     "order is asserted between rows of one chromosome (start, end), for contiguity of each chromosome's rows, and between chromosomes whose relative order the statement gives (integers numerically, then X, Y, then M/MT); not between exotic contigs",
